@@ -229,6 +229,7 @@ var pfBodies = map[string]string{
 	"propname": `<?xml version="1.0"?><propfind xmlns="DAV:"><propname/></propfind>`,
 	"empty":    `<?xml version="1.0"?><D:propfind xmlns:D="DAV:"/>`,
 	"bad":      `<?xml version="1.0"?><D:propfind xmlns:D="DAV:"><D:allprop>`,
+	"pupdate":  `<?xml version="1.0"?><D:propertyupdate xmlns:D="DAV:"><D:set><D:prop><x xmlns="urn:x">v</x></D:prop></D:set></D:propertyupdate>`,
 }
 
 type failReader struct {
@@ -611,7 +612,24 @@ func (s *Sandbox) Do(r Req, before *Node) (Derived, Obs, *Node) {
 
 	var body io.Reader
 	hasXML := false
-	if r.Method == "PROPFIND" {
+	if r.Method == "PROPPATCH" {
+		// DecodeXMLRequest of the propertyupdate body: the model's pf is "bad" when it fails
+		d.PfForm = "bad"
+		switch r.PfBody {
+		case "none":
+		case "junk":
+			body = strings.NewReader("junk")
+		case "pupdate-noct": // a good document without an XML media type
+			body = strings.NewReader(pfBodies["pupdate"])
+		case "pupdate":
+			body = strings.NewReader(pfBodies["pupdate"])
+			hasXML = true
+			d.PfForm = "allprop"
+		default:
+			body = strings.NewReader(pfBodies[r.PfBody])
+			hasXML = true
+		}
+	} else if r.Method == "PROPFIND" {
 		switch r.PfBody {
 		case "none":
 			d.PfForm = "allprop"
